@@ -56,11 +56,11 @@ CLAIMED = {
          "private, the work-shared loop variable or an element addressed through the loop variable; callees write only such locations; buffers that outlive a frame are "
          "re-initialised when the callee accumulates into them; sequential frame loops construct per-frame state inside the loop and advance by the per-frame stride. "
          "This establishes absence of cross-frame / cross-thread state, not bitwise arithmetic determinism.", _NOTE, "DESIGN.md §4 C08"),
- "C13": ("first-access classification of the accumulator (clang AST), taint of the selection mask, table / literal checks, positional FFI conformance against the real C prototype",
+ "C13": ("first-access classification of the accumulator (clang AST), taint of the selection mask, value numbering of the quadrature points, guard facts at the blocker pre-filter, table / literal checks, positional FFI conformance against the real C prototype",
          "Decides that the SASA accumulator starts from zero for every frame, that the selection mask only decides which atoms are targets (blockers are all atoms), "
          "the -1/0 output convention, residue-mode mapping and summation, non-mutation of the radii table, the area formula's constants, and that arguments keep "
          "their meaning across sasa.py -> Cython -> C. Quadrature accuracy is numerical and not decided.", _NOTE, "DESIGN.md §4 C13"),
- "C14": ("degree/radian unit inference and operator/index tables (Python), literal and guard analysis on the clang AST (Kabsch-Sander), sentinel-guard dominance",
+ "C14": ("degree/radian unit inference and operator/index tables (Python), algebraic value numbering of the Kabsch-Sander energy and of the hydrogen-placement paths with canonical path conditions, literal and guard analysis on the clang AST, sentinel-guard dominance, `periodic` plumbing",
          "Decides units, strictness and cutoff plumbing of the Baker-Hubbard / Wernet-Nilsson criteria, which distance and which angle of the D-H...A triplet the index "
          "tables select, the donor/acceptor element and filter tables, the Kabsch-Sander constants and proline guard, the best-two bookkeeping, and that no coordinate "
          "is read through the -1 sentinel of an incomplete residue. Set equality near thresholds is numerical and not decided.", _NOTE, "DESIGN.md §4 C14"),
@@ -68,12 +68,12 @@ CLAIMED = {
          "Decides that the eight DSSP states, the character switch, the simplified translation and the documented code list agree (exhaustive, injective), that the output has one "
          "code per residue per frame with 'NA' overlaid from the protein mask, that incomplete residues take part in no pattern, and that every i+-k access of the bridge / helix tests "
          "is behind its bounds and same-chain tests. The DSSP rule logic itself is combinatorial and not decided.", _NOTE, "DESIGN.md §4 C15"),
- "C05": ("dispatch-predicate and box-orientation agreement across dispatchers (py) and wrappers (pyx), literal evaluation of the image loops and statement-sequence comparison of sibling kernels on the clang AST, positional FFI conformance against the real C prototypes",
+ "C05": ("algebraic value numbering of the four minimum-image kernels as whole functions (normal forms of the stored displacement / distance over the input symbols, symbolic loop variables), dispatch-predicate and box-orientation agreement across dispatchers (py) and wrappers (pyx), positional FFI conformance against the real C prototypes, `periodic` plumbing",
          "Decides that every distance/displacement dispatcher selects the periodic path by the same predicate, derives orthogonality from the cell angles and hands the box to the optimised and reference "
          "paths in the same orientation; that the wrap acts on pos2-pos1 in every kernel, the box is reduced before use, the image search enumerates exactly {-1,0,1}^3 and its minimum is what is stored; "
          "that the time-pair kernels equal their siblings; and that every extern call in _geometry.pyx passes the variable its C parameter names. That the result is the true minimum for every cell is numerical and not decided.",
          _NOTE, "DESIGN.md §4 C05"),
- "C07": ("dispatch / FFI conformance (shared with C05), evaluation of index initializer lists and column selections to atom-slot tables, clamp-before-acos ordering and formula shape on the clang AST, constant-table comparison with the IUPAC-IUB torsion definitions plus internal invariants",
+ "C07": ("algebraic value numbering of the per-frame body of the six angle / dihedral kernels and of the numpy reference (clamp paths, atan2 formula as normal forms), dispatch / FFI conformance (shared with C05), evaluation of index initializer lists to atom-slot tables, constant-table comparison with the IUPAC-IUB torsion definitions plus internal invariants",
          "Decides that angles and dihedrals take the periodic path like distances do, that C kernels and numpy references build (mid->first, mid->third) and consecutive bond vectors from the same atom slots and read them "
          "back in the order requested, that the cosine is clamped to [-1,1] before acos on every path and the dihedral is atan2(|b2| b1.(b2xb3), (b1xb2).(b2xb3)) in both implementations, and that PHI/PSI/OMEGA/CHI1-5 tables, "
          "offset parsing and per-chain lookup match the IUPAC definitions. Numerical values and sign at degeneracies are not decided.", _NOTE, "DESIGN.md §4 C07"),
